@@ -978,6 +978,178 @@ theorem modeReg_injective : ∀ kw r kw' r' : Bool, ∀ b b' : Fin 4,
     modeReg ⟨kw, r, b.val, false⟩ = modeReg ⟨kw', r', b'.val, false⟩ → kw = kw' ∧ r = r' ∧ b = b' := by
   decide
 
+/-! ## framing on this transport (C10's clause for the 12.48in driver) -/
+
+/-- every transfer a program asks for: a control word below 32; without `CS_DATA` (both D/C lines
+    low) exactly ONE byte — a command -/
+def Framed (acts : List BAct) : Prop :=
+  ∀ a, a ∈ acts → ∀ c d, a = BAct.sw c d → c < 32 ∧ (c < 16 → d.length = 1)
+
+theorem Framed_append {a b : List BAct} (ha : Framed a) (hb : Framed b) : Framed (a ++ b) := by
+  intro x hx c d he
+  rcases List.mem_append.1 hx with h | h
+  · exact ha x h c d he
+  · exact hb x h c d he
+
+theorem Framed_nil : Framed [] := by intro x hx; cases hx
+
+theorem Framed_cmd (chips : Nat) (h : chips < 16) (tc : UInt8) : Framed (Big.cmd chips tc) := by
+  intro x hx c d he
+  simp only [Big.cmd, List.mem_singleton] at hx
+  subst hx
+  injection he with h1 h2
+  subst h1; subst h2
+  exact ⟨by omega, fun _ => rfl⟩
+
+theorem Framed_cmdData (chips : Nat) (h : chips < 16) (tc : UInt8) (ds : Bytes) : Framed (Big.cmdData chips tc ds) := by
+  intro x hx c d he
+  simp only [Big.cmdData, List.mem_cons, List.mem_nil_iff, or_false] at hx
+  rcases hx with hx | hx
+  · subst hx
+    injection he with h1 h2
+    subst h1; subst h2
+    exact ⟨by omega, fun _ => rfl⟩
+  · subst hx
+    injection he with h1 h2
+    subst h1
+    simp only [DATA, CS_DATA]
+    exact ⟨by omega, fun hh => by omega⟩
+
+theorem Framed_other (a : BAct) (h : ∀ c d, a ≠ BAct.sw c d) : Framed [a] := by
+  intro x hx c d he
+  simp only [List.mem_singleton] at hx
+  subst hx
+  exact absurd he (h c d)
+
+theorem Framed_wwd (tc : UInt8) (win : Rect) (px : Bytes) : Framed (writeWindowData tc win px) := by
+  intro x hx c d he
+  rcases wwd_controls tc win px x hx with h | ⟨chip, hm, h | ⟨d', h⟩⟩
+  · rw [h] at he; cases he
+  · rw [h] at he
+    injection he with h1 h2
+    subst h1; subst h2
+    simp only [List.mem_cons, List.mem_nil_iff, or_false, CS_S2, CS_M2, CS_M1, CS_S1] at hm
+    exact ⟨by omega, fun _ => rfl⟩
+  · rw [h] at he
+    injection he with h1 h2
+    subst h1
+    simp only [List.mem_cons, List.mem_nil_iff, or_false, CS_S2, CS_M2, CS_M1, CS_S1, CS_DATA] at hm ⊢
+    exact ⟨by omega, fun hh => by omega⟩
+
+theorem Framed_guard (g : List BAct) (h : g = [] ∨ g = [.panic]) : Framed g := by
+  rcases h with h | h
+  · rw [h]; exact Framed_nil
+  · rw [h]; exact Framed_other _ (by intro c d hh; cases hh)
+
+theorem partialWindowData_guard (w : Rect) (r : Option Nat) :
+    (partialWindowData w r).1 = [] ∨ (partialWindowData w r).1 = [.panic] := by
+  unfold partialWindowData
+  split
+  · exact Or.inl rfl
+  · cases r with
+    | none => exact Or.inl rfl
+    | some width =>
+      simp only
+      split
+      · exact Or.inl rfl
+      · exact Or.inr rfl
+
+theorem localPart_guard (win r : Rect) : (localPart win r).1 = [] ∨ (localPart win r).1 = [.panic] := by
+  unfold localPart
+  simp only
+  split
+  · exact Or.inl rfl
+  · exact Or.inr rfl
+
+theorem Framed_setup (win : Rect) : Framed (setupPartialWindows win) := by
+  unfold setupPartialWindows
+  split
+  · exact Framed_other _ (by intro c d hh; cases hh)
+  · simp only
+    refine Framed_append (Framed_append (Framed_append (Framed_append (Framed_append (Framed_append (Framed_append
+      (Framed_append (Framed_append (Framed_append (Framed_append ?_ ?_) ?_) ?_) ?_) ?_) ?_) ?_) ?_) ?_) ?_) ?_
+    all_goals first
+      | exact Framed_guard _ (localPart_guard _ _)
+      | exact Framed_guard _ (partialWindowData_guard _ _)
+      | exact Framed_cmdData _ (by decide) _ _
+
+theorem Framed_setMode (c : Cfg) : Framed (setMode c) := by
+  unfold setMode
+  simp only
+  refine Framed_append (Framed_append (Framed_append (Framed_append (Framed_append ?_ ?_) ?_) ?_) ?_) ?_
+  all_goals first
+    | exact Framed_cmdData _ (by decide) _ _
+    | exact Framed_other _ (by intro c d hh; cases hh)
+
+theorem Framed_beginRefresh : Framed beginRefresh := by
+  unfold beginRefresh
+  refine Framed_append (Framed_append (Framed_append (Framed_cmd _ (by decide) _) ?_) (Framed_cmd _ (by decide) _)) ?_
+  · intro x hx c d he
+    simp only [List.mem_cons, List.mem_nil_iff, or_false] at hx
+    rcases hx with h | h <;> (rw [h] at he; cases he)
+  · exact Framed_other _ (by intro c d hh; cases hh)
+
+theorem Framed_beginRefreshPartial (w : Rect) : Framed (beginRefreshPartial w) := by
+  unfold beginRefreshPartial
+  refine Framed_append (Framed_append (Framed_append (Framed_append (Framed_append (Framed_append (Framed_setup w)
+    (Framed_cmd _ (by decide) _)) ?_) (Framed_cmd _ (by decide) _)) (Framed_cmd _ (by decide) _)) (Framed_cmd _ (by decide) _)) ?_
+  · intro x hx c d he
+    simp only [List.mem_cons, List.mem_nil_iff, or_false] at hx
+    rcases hx with h | h <;> (rw [h] at he; cases he)
+  · exact Framed_other _ (by intro c d hh; cases hh)
+
+theorem Framed_writePartial (tc : UInt8) (win : Rect) (px : Bytes) : Framed (writePartial tc win px) := by
+  unfold writePartial
+  refine Framed_append (Framed_append (Framed_append (Framed_append ?_ (Framed_cmd _ (by decide) _)) (Framed_setup win))
+    (Framed_wwd tc win px)) (Framed_cmd _ (by decide) _)
+  split
+  · exact Framed_other _ (by intro c d hh; cases hh)
+  · exact Framed_nil
+
+/-- C10 for the 12.48in driver's model: the program of EVERY public call, for every argument, asks
+    only for single-byte command transfers and data transfers with `CS_DATA` set (with `transport`:
+    that is what reaches the bus, with both D/C lines at the level of the control word) -/
+theorem prog_framed (op : PubOp) : Framed (progOf op) := by
+  have fl : Framed [BAct.flush] := Framed_other _ (by intro c d hh; cases hh)
+  have wr : Framed [BAct.waitReady] := Framed_other _ (by intro c d hh; cases hh)
+  cases op <;> unfold progOf
+  case reset => exact Framed_other _ (by intro c d hh; cases hh)
+  case init c =>
+    unfold initP
+    refine Framed_append (Framed_append (Framed_append (Framed_append (Framed_append (Framed_append (Framed_append (Framed_append
+      (Framed_append (Framed_append (Framed_append ?_ ?_) ?_) ?_) ?_) ?_) ?_) ?_) ?_) ?_) (Framed_setMode c)) fl
+    all_goals exact Framed_cmdData _ (by decide) _ _
+  case mode c => exact Framed_setMode c
+  case d1 px => exact Framed_append (Framed_wwd _ _ _) fl
+  case d2 px => exact Framed_append (Framed_wwd _ _ _) fl
+  case d1p w px => exact Framed_append (Framed_writePartial _ _ _) fl
+  case d2p w px => exact Framed_append (Framed_writePartial _ _ _) fl
+  case refresh => exact Framed_append Framed_beginRefresh wr
+  case brefresh => exact Framed_beginRefresh
+  case refreshp w => exact Framed_append (Framed_beginRefreshPartial w) wr
+  case brefreshp w => exact Framed_beginRefreshPartial w
+  case poweroff =>
+    refine Framed_append (Framed_cmd _ (by decide) _) ?_
+    intro x hx c d he
+    simp only [List.mem_cons, List.mem_nil_iff, or_false] at hx
+    rcases hx with h | h <;> (rw [h] at he; cases he)
+  case hibernate =>
+    exact Framed_append (Framed_append (Framed_append (Framed_cmd _ (by decide) _) wr) (Framed_cmdData _ (by decide) _ _)) fl
+  case lut c n d =>
+    unfold setLut
+    refine Framed_append (Framed_append (Framed_cmdData _ (by decide) _ _) ?_) fl
+    split
+    · intro x hx c' d' he
+      simp only [List.mem_singleton] at hx
+      subst hx
+      injection he with h1 h2
+      subst h1
+      simp only [CS_ALLm, CS_ALL, DATA, CS_DATA]
+      exact ⟨by omega, fun hh => by omega⟩
+    · exact Framed_nil
+  case status => exact Framed_other _ (by intro c d hh; cases hh)
+  case busy => exact Framed_other _ (by intro c d hh; cases hh)
+
 /-! ## non-vacuity -/
 
 /-- a seam-straddling window with a two-row buffer meets the hypotheses -/
